@@ -30,6 +30,7 @@ Definition truthy_safe (k : pkind) : bool :=
   match k with KEmbedded _ | KStixObject _ | KMarking _ => false | _ => true end.
 
 Definition is_time_kind (k : pkind) : bool := match k with KTime _ _ => true | _ => false end.
+Definition is_marking_kind (k : pkind) : bool := match k with KMarking _ => true | _ => false end.
 
 Definition time_slot (c : cls) (p : ustring) : bool :=
   match find_slot c p with Some s => is_time_kind (skind s) | None => false end.
@@ -37,11 +38,26 @@ Definition time_slot (c : cls) (p : ustring) : bool :=
 (* the conditions the constraint methods evaluate: what the proof needs of the properties read *)
 Fixpoint cond_ok (c : cls) (q : ccond) : bool :=
   match q with
-  | QTruthy p => match find_slot c p with Some s => truthy_safe (skind s) | None => false end
+  | QTruthy p => match find_slot c p with Some s => truthy_safe (skind s) || is_marking_kind (skind s) | None => false end
   | QIsTrue _ | QIsNotFalse _ | QIsNotNone _ | QHas _ => true
   | QLt a b | QLe a b => time_slot c a && time_slot c b   (* compared as instants *)
   | QAnd a b | QOr a b => cond_ok c a && cond_ok c b
   | QNot a => cond_ok c a
+  end.
+
+(* v21 Indicator: `pattern_type` is a required string property of the class (the specification's
+   check says "invalid" when it is not a string, the library's says nothing) *)
+Definition pat21_ok (c : cls) : bool :=
+  match find_slot c (u "pattern_type") with
+  | Some s => sreq s && is_stringy (skind s)
+  | None => false
+  end.
+
+(* check_tlp_marking reads `definition_type` as a plain string and `definition` as a wrapped marking object *)
+Definition tlp_ok (c : cls) : bool :=
+  match find_slot c (u "definition_type"), find_slot c (u "definition") with
+  | Some s1, Some s2 => is_stringy (skind s1) && is_marking_kind (skind s2)
+  | _, _ => false
   end.
 
 Fixpoint constr_proved2 (c : cls) (k : constr) {struct k} : bool :=
@@ -54,10 +70,50 @@ Fixpoint constr_proved2 (c : cls) (k : constr) {struct k} : bool :=
        match l with [] => true | x :: r => constr_proved2 c x && negb (uses_default_checked x) && go r end) body
   | CLegalHashes _ => true
   | CSocketOptions => true      (* repaired variant vr_sock_int: integers proper *)
+  | CTlp _ => tlp_ok c
+  | CPatternValidator V20 => true
+  | CPatternValidator V21 => pat21_ok c
   | _ => false
   end.
 
-Definition init_proved2 (i : preinit) : bool := init_proved i.
+
+(* the class registered for type name t writes `type: t` (fixed value, fixed default) and has no
+   class-specific __init__ wrapping *)
+Definition class_typed (w : world) (cid t : ustring) : bool :=
+  match find_class (wclasses w) cid with
+  | Some c =>
+    init_proved (cinit c) && unodup (map sname (cslots c)) &&
+    match find_slot c (u "type") with
+    | Some s => match skind s, sdef s with KFixed fv _, DFixed => ustr_eqb fv t | _, _ => false end
+    | None => false
+    end
+  | None => false
+  end.
+
+(* a registered marking class (TLPMarking, StatementMarking): no class-specific wrapping of its own,
+   some required property (so the object is never empty), and a `tlp` property, if any, is required
+   (so it is never elided from the serialization) *)
+Definition marking_cls_ok (w : world) (cid : ustring) : bool :=
+  match find_class (wclasses w) cid with
+  | Some c =>
+    init_proved (cinit c) && unodup (map sname (cslots c)) &&
+    match cfamily c with FSco => false | _ => true end &&
+    existsb sreq (cslots c) &&
+    forallb (fun s => negb (ustr_eqb (sname s) (u "tlp")) || sreq s) (cslots c)
+  | None => false
+  end.
+
+(* the __init__ forms: those of Proofs/SchemaProved.v, and v21 MarkingDefinition.__init__ (wrap `definition`
+   into the registered marking class).  The v20 form also switches the precision of `created` per
+   instance and is NOT covered: known finding C02-v20-marking-definition-created-without-milliseconds. *)
+Definition init_proved2 (w : world) (cp : ustring -> bool) (c : cls) : bool :=
+  init_proved (cinit c) ||
+  match cinit c with
+  | IMarkingDefinition V21 =>
+    forallb (fun kc => cp (snd kc) && marking_cls_ok w (snd kc)) (rmarkings (reg_of w V21)) &&
+    match find_slot c (u "definition") with Some s => match skind s with KMarking V21 => true | _ => false end | None => false end
+  | _ => false
+  end.
 
 (* cp: "the class with this id is covered", one nesting level down *)
 Fixpoint kind_proved2 (w : world) (cp : ustring -> bool) (k : pkind) : bool :=
@@ -65,6 +121,7 @@ Fixpoint kind_proved2 (w : world) (cp : ustring -> bool) (k : pkind) : bool :=
   | KList k' => kind_proved2 w cp k'
   | KEmbedded cid | KListOf cid => cp cid
   | KExtensions vv => forallb (fun kc => cp (snd kc)) (rextensions (reg_of w vv))
+  | KObservable vv => forallb (fun kc => cp (snd kc) && class_typed w (snd kc) (fst kc)) (robservables (reg_of w vv))
   | _ => leaf_proved2 k
   end.
 
@@ -73,7 +130,7 @@ Fixpoint class_proved2 (n : nat) (w : world) (cid : ustring) : bool :=
   | O => false
   | S m =>
     match find_class (wclasses w) cid with
-    | Some c => init_proved2 (cinit c) && class_wf c &&
+    | Some c => init_proved2 w (class_proved2 m w) c && class_wf c &&
                 forallb (fun s => kind_proved2 w (class_proved2 m w) (skind s)) (cslots c) &&
                 forallb (constr_proved2 c) (ext_constr c ++ ccons c)
     | None => false
